@@ -308,6 +308,10 @@ def simplify_inequality(
         lhs = simplify(sympify(lhs))
         rhs = simplify(sympify(rhs))
         assumption = simplify(Eq(lhs, rhs))
+        if not isinstance(assumption, Eq):
+            # the assumption holds trivially (or never): there is nothing to substitute.
+            continue
+
         left_expr = left_expr.subs(assumption.lhs, assumption.rhs)
         right_expr = right_expr.subs(assumption.lhs, assumption.rhs)
 
